@@ -142,6 +142,9 @@ func (p *constraintParser) constraint() (*Constraint, error) {
 			hi.incN(nMajor)
 			hi.setMinor(0)
 			hi.setPatch(0)
+			// The next major version is the bound, not a prerelease of it.
+			hi.clearPre()
+			hi.isPrerelease = false
 			s, err = newSpan(lo, closed, hi, open)
 			p.lex.setError(err)
 			p.Constraint.set = Set{
